@@ -82,6 +82,9 @@ def handleApi (op : String) (f : List (List Q)) : String :=
       let n := L.length
       let idxOk := match idx with | none => true | some l => idxValid l n
       if !idxOk then "reject" else
+      -- the order / directionality scalars raise NotImplementedError when `interval` is given
+      if kw.interval.isSome && (op == "order_bi" || op == "order_multi" || op == "dir_values" || op == "dir_bi" || op == "dir_matrix")
+      then "reject" else
       match op with
       | "reconcile" => showTrains (reconcile L)
       | "isi_profile_bi" => let r := isiProfileBi kw (tr L 0) (tr L 1); showFields [r.x, r.y]
